@@ -56,10 +56,10 @@ var props = map[string]propCfg{
 		components:  "real: every statistic of align.Alignment / SeqBag / Sequence / CountProfile named by the property plus the operations that inherit the majority character (MaskUnique, MaskOccurences, Mask with MAJ, RemoveMajorityCharacterSites); environment: verifrt.Keys behind every `range` over a map (spliced by seamgen, order = PRNG keyed on map seed, site and call count); stubs: none",
 		assumptions: []string{"every map iteration of goalign goes through the seam: seamgen rewrites each range statement whose operand has map type and reports the count in coverage.seams", "floating sums are compared to 1e-12 relative: the statement's 'same answer' is not read as the last bit of a re-associated sum", "the naive definitions are evaluated on the simulated runs but owe nothing to the simulation; where the documentation is ambiguous (N/X in variable and informative sites, lower case in entropy) both readings are accepted or the clause is skipped"}},
 	"C10": {quick: 60000, thorough: 2000000, coldQuick: 160, coldThorough: 4000, level: "exploration", stallS: 120, engine: "E3 seeded replay of the product's random stream under different map orders and clocks (in-process)",
-		components:  "real: the 12 randomised operations of align.Alignment / SeqBag on top of the global math/rand stream seeded through rand.Seed as cmd/root.go does; environment: map-order and clock seams spliced by seamgen; stubs: none",
+		components:  "real: the 12 randomised operations of align.Alignment / SeqBag on top of the global math/rand stream seeded through rand.Seed as cmd/root.go does; in cli runs the same operations through cmd.RootCmd executed in-process with --seed (cmd/root.go's own seeding, the commands' flag plumbing and writers included), every goroutine of the command under the FIFO policy of the scheduler; environment: map-order and clock seams spliced by seamgen; stubs: none",
 		assumptions: []string{"the harness module sets godebug randseednop=0 so that rand.Seed seeds the global stream as it does in the shipped binary (built from a go 1.21 module)", "support claims: 400 product seeds per run, every required outcome has probability >= 1/6 per execution on correct code, so a missing outcome has probability below 1e-30 (union bound over at most 25 outcomes)", "fractions are dyadic and lengths multiples of 4 so that floor(frac*L) is the same in real and floating-point arithmetic"}},
 	"C01": {quick: 2000000, thorough: 150000000, coldQuick: 160, coldThorough: 4000, level: "exploration", stallS: 120, engine: "E4 operation histories against a list-of-rows reference model",
-		components:  "real: align.Alignment / align.SeqBag and every operation of the history (AddSequence, Append, Concat, Rename, RenameRegexp, CleanNames, TrimNames, TrimNamesAuto, AppendSeqIdentifier, Sort, ShuffleSequences, FilterLength, Deduplicate, RemoveGapSeqs, RemoveGapSites, TrimSequences, Translate, Clone, Sample, Clear, SubAlign, Unalign, Replace, ToUpper, ToLower, IgnoreIdentical) and all accessors; environment: the simulated client (history generator), per-operation random seeds, map-order seam; stubs: none",
+		components:  "real: align.Alignment / align.SeqBag and every operation of the history (AddSequence, Append, Concat, Rename, RenameRegexp, CleanNames, TrimNames, TrimNamesAuto, AppendSeqIdentifier, Sort, ShuffleSequences, FilterLength, Deduplicate, RemoveGapSeqs, RemoveCharacterSeqs, RemoveGapSites, RemoveCharacterSites, RemoveMajorityCharacterSites, Compress, TrimSequences, Translate, Clone, Sample, Clear, SubAlign, SelectSites, Transpose, Unalign, Replace, ReplaceMatchChars, Mask, MaskUnique, MaskOccurences, Swap, Recombine, ShuffleSites, AddGaps, Mutate, SimulateRogue, RandSubAlign, ToUpper, ToLower, IgnoreIdentical) and all accessors; environment: the simulated client (history generator), per-operation random seeds, map-order seam; stubs: none",
 		assumptions: []string{"the reference model implements each operation from its documentation comment; where the comment does not fix the result (name cleaning / trimming, gap and character filters, translation, trimming) the operation is held to the invariants only and the model is re-read from the container", "by-name lookups are only compared for names that are unique in the container (the statement excepts names the caller made equal)", "no goroutine, stream or clock is involved: what is simulated is the client's history, including operations that must be rejected"}},
 	"C19": {quick: 400000, thorough: 20000000, coldQuick: 160, coldThorough: 4000, level: "exploration", stallS: 120, engine: "E4 operation histories over a pool of live objects",
 		components:  "real: the 7 writers, the statistics, Consensus, Entropy, Pssm, CountProfile, DistMatrix (its own goroutines, unscheduled here), protein MLDist, the pairwise aligner, LongestORF, Unalign, Transpose, BuildBootstrap, Clone, CloneSeqBag, SubAlign, SelectSites, Sequence.Clone and the in-place mutators; environment: the simulated client (history generator), map-order seam; stubs: none",
